@@ -43,7 +43,8 @@ def read_client_conf():
 
     def resolve_location(item: str, value: str) -> str:
         nonlocal path
-        sp = value.split(':')
+        # Only the first colon separates scheme and location: a location may contain colons itself
+        sp = value.split(':', 1)
         if len(sp) == 1:
             scheme = value
             loc = ''
